@@ -1,12 +1,12 @@
 SPECIFICATION Spec
 CONSTANTS
-  NPages = 12
+  NPages = 9
   PS = 2
-  R = 6
+  R = 4
   Branch = "x64"
   UnmapRejected = TRUE
-  Kernel = "mmap"
-  Gran = 1
+  Kernel = "win"
+  Gran = 2
   AcceptTest = "le"
 INVARIANT InReach NoLeftover Bounded
 PROPERTY Terminates
